@@ -51,8 +51,18 @@ type raceReal struct {
 	SomeErr *int `json:"err,omitempty"`
 }
 
+// harnessSrcDir is the root of the harness module (the directory with go.mod above this source file).
 func harnessSrcDir() string {
 	_, file, _, _ := runtime.Caller(0)
+	dir := filepath.Dir(file)
+	for i := 0; i < 6; i++ {
+		if _, err := os.Stat(filepath.Join(dir, "go.mod")); err == nil {
+			if _, err := os.Stat(filepath.Join(dir, "c19race", "main.go")); err == nil {
+				return dir
+			}
+		}
+		dir = filepath.Dir(dir)
+	}
 	return filepath.Dir(file)
 }
 
@@ -259,7 +269,10 @@ func judgeRace(args, real, _ json.RawMessage) *core.Verdict {
 		return core.Disagree("malformed race exchange")
 	}
 	if r.Unavailable != "" {
-		return core.Skip("race detector unavailable: " + r.Unavailable)
+		if raceToolchainLimit(r.Unavailable) {
+			return core.Skip("race detector unavailable: " + r.Unavailable)
+		}
+		return core.Disagree("the race helper could not be built / started (not a toolchain limitation): " + r.Unavailable)
 	}
 	var j raceJob
 	json.Unmarshal(args, &j)
@@ -320,7 +333,27 @@ func judgeRace(args, real, _ json.RawMessage) *core.Verdict {
 	return nil
 }
 
+// raceToolchainLimit: the only reason for which the race oracle may be skipped quietly is a toolchain without race support.
+func raceToolchainLimit(msg string) bool {
+	m := strings.ToLower(msg)
+	for _, w := range []string{"requires cgo", "-race is only supported", "c compiler", "cgo: ", "gcc\": executable file not found", "runtime/race"} {
+		if strings.Contains(m, w) {
+			return true
+		}
+	}
+	return false
+}
+
 func init() {
+	core.Register("raceHelperBuild", &core.CheckDef{
+		Judge: func(args, _, _ json.RawMessage) *core.Verdict {
+			var a struct {
+				Err string `json:"err"`
+			}
+			json.Unmarshal(args, &a)
+			return core.Disagree("the race helper could not be built (not a toolchain limitation), the concurrent-load oracle did not run: " + a.Err)
+		},
+	})
 	core.Register("race", &core.CheckDef{
 		Real:    func(raw json.RawMessage) any { return runRaceJob(raw) },
 		Judge:   judgeRace,
